@@ -26,7 +26,7 @@ chk("C09","vsched (race build)",
  "All schedules up to the bound of 6 driver families (two tunnels registering/removing, traffic with close, traffic with protocol error, client drop while the host sends, legacy IN/OUT concurrently, negative idle timeout) on both transports run the real handlers in a -race build whose scheduler hand-off is invisible to the race runtime, so unsynchronised conflicting accesses are reported for every enumerated schedule.",
  "Bounded preemptions/deviations; 1-2 tunnels; the race runtime reports each racy stack pair once per process and keeps bounded shadow state; scheduling points are blocking operations, connection writes/closes, locks, spawns.")
 chk("C11","vsched",
- "stateless DFS over thread schedules (preemption bound 1 quick / 2 thorough) of 80 end-of-tunnel scenarios on the real handlers; quiescent-state oracle",
+ "stateless DFS over thread schedules (preemption bound 1 quick / 3 thorough) of 92 end-of-tunnel scenarios on the real handlers; quiescent-state oracle",
  "For 8 end points x 4-6 causes x 2 transports every schedule up to the bound is run on the real handlers; at quiescence (no thread can step) the backend connection and every hijacked client connection must have been closed by the gateway, no gateway goroutine may be left, the registry must be empty and the gauges restored.",
  "'Bounded time' is judged at quiescence of the closed system; connections are unbounded in-memory pipes; known finding: legacy client dropping only the OUT connection.")
 
@@ -43,8 +43,8 @@ chk("C04","enum (handler level)",
  "All 31 x 31 pairs of address presentations (peer only, X-Forwarded-For chains, blanks, repeated header lines, IPv4/IPv6 spellings) x switch on/off x websocket/legacy: issuance through the real EnrichContext + GeneratePAAToken, use through EnrichContext + HandleGatewayProtocol; equal addresses must create the channel, a different IP must be denied without any dial.",
  "IdP honours the token; host policy allows the host; spellings of the same IP are unspecified.")
 chk("C06","seqx + vsched",
- "exhaustive enumeration of payload-size / packet-split / lying-length-field cases on the real handlers (sequential) plus stateless DFS over schedules of both relay directions (preemption bound 2/3); byte-exact stream oracle",
- "Client data packets of 9 boundary sizes alone, in all ordered pairs (paced, burst, cut at 6 offsets) and triples, data packets whose length field lies, host writes of 5 sizes alone and in pairs, on both transports; plus every schedule (bound 2 quick, 3 thorough) of a tunnel carrying traffic in both directions at once. The host must receive exactly the declared payloads in order, the client exactly the host's bytes, every data packet well-formed.",
+ "exhaustive enumeration of payload-size / packet-split / lying-length-field cases on the real handlers (sequential) plus stateless DFS over schedules of both relay directions (preemption bound 2 quick / 4 thorough); byte-exact stream oracle",
+ "Client data packets of 9 boundary sizes alone, in all ordered pairs (paced, burst, cut at 6 offsets) and triples, data packets whose length field lies, host writes of 5 sizes alone and in pairs, on both transports; plus every schedule (bound 2 quick, 4 thorough) of a tunnel carrying traffic in both directions at once. The host must receive exactly the declared payloads in order, the client exactly the host's bytes, every data packet well-formed.",
  "Streams bounded to 3 x 65535 bytes per direction; position-dependent byte patterns.")
 chk("C07","vsched",
  "stateless DFS over schedules (deviation bound 2 quick / 3 thorough) of two or three concurrent tunnels on the real handlers; differential non-interference oracle against each tunnel run alone",
